@@ -151,6 +151,10 @@ main(int argc, char *argv[])
 		struct dt_dt_s base = dt_strpdt(argi->base_arg, NULL, NULL);
 		dt_set_base(base);
 	}
+	if (argi->from_locale_arg) {
+		/* the expression is input as well */
+		setilocale(argi->from_locale_arg);
+	}
 
 	if (argi->eq_flag) {
 		o = OP_EQ;
@@ -184,9 +188,6 @@ with complex expressions");
 		root->kv->op = o;
 	}
 
-	if (argi->from_locale_arg) {
-		setilocale(argi->from_locale_arg);
-	}
 	if (argi->from_zone_arg &&
 	    (fromz = dt_io_zone(argi->from_zone_arg)) == NULL) {
 		error("\
